@@ -14,6 +14,24 @@ CMP = {"Eq", "Ne", "Lt", "Le", "Gt", "Ge"}
 
 class OpsMixin:
     # ------------------------------------------------------------ constants
+    def const_param(self, frame, name):
+        """value of the const generic parameter `name` in the instance `frame` analyses, or None"""
+        gs = frame.fn.get("generics") or []
+        ga = getattr(frame, "gargs", None) or []
+        if name in gs and len(ga) == len(gs):
+            a = ga[gs.index(name)]
+            if isinstance(a, dict) and isinstance(a.get("const"), int):
+                return a["const"]
+        return None
+
+    def array_len(self, frame, t):
+        """length of array type t as seen from `frame` (a const generic length is known per instance)"""
+        if t.get("len") is not None:
+            return t["len"]
+        if t.get("len_param") and frame is not None:
+            return self.const_param(frame, t["len_param"])
+        return None
+
     def eval_const(self, st, frame, c):
         if "fn" in c:
             return VFn(c["fn"])
@@ -49,9 +67,17 @@ class OpsMixin:
         if "array_bytes" in c:
             et = t["of"]
             return VArr(len(c["array_bytes"]), tuple(self.const_int(et, x) for x in c["array_bytes"]))
+        if "array_const" in c:
+            return VArr(len(c["array_const"]), tuple(self.eval_const(st, frame, e) for e in c["array_const"]))
         if "adt_const" in c:
             ac = c["adt_const"]
             return VAdt(ty, Lin.const(ac["variant"]), {ac["variant"]: tuple(self.eval_const(st, frame, f) for f in ac["fields"])})
+        if "const_param" in c:
+            # a const generic parameter: its value in this instance, or one symbol per parameter of this frame
+            v = self.const_param(frame, c["const_param"])
+            if v is not None:
+                return self.const_int(ty, v)
+            return self.named_int(ty, "%s<%d>" % (c["const_param"], frame.fid))
         if "assoc_const" in c:
             # `Self::NAME` in a trait's default method: the value the implementing type gives it
             ga = getattr(frame, "gargs", None) or []
@@ -90,6 +116,30 @@ class OpsMixin:
         # RuntimeChecks(..): debug-only UB checks; value is a bool we leave unknown-false
         return FALSE
 
+    def table_lookup(self, st, frame, o):
+        """`TABLE[i]` with a small table of known entries and an index that is not a constant: one case per entry"""
+        pl = o.get("copy") or o.get("move")
+        if not pl or not pl["p"] or not isinstance(pl["p"][-1], dict) or "idx" not in pl["p"][-1]:
+            return None
+        iv = self.load(st, frame.cells[pl["p"][-1]["idx"]], ())
+        if not isinstance(iv, VInt) or iv.lin.is_const():
+            return None
+        try:
+            base = self.read_place(st, frame, {"l": pl["l"], "p": pl["p"][:-1]})
+        except Abort:
+            return None
+        if not isinstance(base, VArr) or base.elems is None or not (2 <= len(base.elems) <= 32):
+            return None
+        if not all(isinstance(e, VInt) and e.lin.is_const() or isinstance(e, VAdt) and e.vidx.is_const() and not any(e.variants.values())
+                   for e in base.elems):
+            return None
+        alts = []
+        for i, e in enumerate(base.elems):
+            s2 = st.fork()
+            if self.add(s2, c_eq(iv.lin, Lin.const(i))):
+                alts.append((s2, e))
+        return Alts(alts) if alts else None
+
     def operand_ty(self, frame, o):
         if "copy" in o:
             return self.place_ty(frame, o["copy"])
@@ -103,6 +153,9 @@ class OpsMixin:
     def eval_rvalue(self, st, frame, bb, rv, dest_ty, ln=None):
         k = rv["k"]
         if k == "use":
+            alt = self.table_lookup(st, frame, rv["op"])
+            if alt is not None:
+                return alt
             return self.eval_operand(st, frame, rv["op"])
         if k in ("ref", "rawptr"):
             loc = self.resolve_place(st, frame, rv["place"])
